@@ -232,8 +232,22 @@ fn main() -> std::io::Result<()> {
         .unicode_error_messages(!matches.get_flag("NO_UNICODE"))
         .allows_charset(!matches.get_flag("NO_CHARSET"));
 
+    // with `--stdin` there is no input file: the only positional argument names the output
+    let (input, output) = if matches.get_flag("STDIN") {
+        if matches.get_one::<String>("OUTPUT").is_some() {
+            eprintln!("Error: only one positional argument (the output file) is allowed with --stdin");
+            std::process::exit(1);
+        }
+        (None, matches.get_one::<String>("INPUT"))
+    } else {
+        (
+            matches.get_one::<String>("INPUT"),
+            matches.get_one::<String>("OUTPUT"),
+        )
+    };
+
     let (mut stdout_write, mut file_write);
-    let buf_out: &mut dyn Write = if let Some(path) = matches.get_one::<String>("OUTPUT") {
+    let buf_out: &mut dyn Write = if let Some(path) = output {
         file_write = OpenOptions::new()
             .create(true)
             .write(true)
@@ -246,7 +260,7 @@ fn main() -> std::io::Result<()> {
     };
 
     buf_out.write_all(
-        if let Some(name) = matches.get_one::<String>("INPUT") {
+        if let Some(name) = input {
             from_path(name, options)
         } else if matches.get_flag("STDIN") {
             from_string(
